@@ -170,6 +170,7 @@ class Module:
         s.funcs = collections.OrderedDict()   # name -> Func
         s.decls = collections.OrderedDict()   # name -> FuncTy
         s.aliases = {}
+        s.ctors = []
 
 class Func:
     def __init__(s, name, ret, params):
@@ -212,6 +213,8 @@ def parse_module(text):
                 if tk in (']', '}', ')', '}>', '>'): depth -= 1
                 if tk == ',' and depth == 0: break
                 init.append(tk)
+            if name == 'llvm.global_ctors':
+                m.ctors = [unq(t) for t in rest if t.startswith('@')]
             if name.startswith('llvm.'): continue
             m.globals[name] = (ty, init if init else None, const, tls)
             continue
@@ -652,6 +655,7 @@ class Emitter:
                 except Unsupported as e:
                     raise Unsupported('%s: in @%s: %s' % (e, f.name, ' '.join(toks)[:200]))
         out.append('%s %s(%s) {' % (s.cty(f.ret), s.fname(f.name), params))
+        if re.match(r'h[qt]_', f.name) and s.m.ctors: out.append('  vrt_global_init_once();')
         for n, t in decls.items():
             out.append('  %s %s;' % (t, n))
         for a in allocas: out.append('  ' + a)
@@ -894,6 +898,8 @@ def translate(text, keep=None, want_info=False, guard_globals=()):
     for name, f in m.funcs.items():
         protos.append(em.proto(name, f.ret, [t for t, _ in f.params]) + ';')
     types = em.emit_types()
+    ginit = ['/* ---- dynamic initialisers of namespace-scope objects (llvm.global_ctors), run once at harness entry ---- */',
+             'static uint8_t vrt_ginit_done = 0;', 'static void vrt_global_init_once(void);']
     ovh = ['/* ---- *.with.overflow helpers ---- */']
     for (op, bits, lit) in sorted(em.ov_helpers):
         T = em.cty(IntTy(bits)); S = em.sty(IntTy(bits)); W = 'unsigned __int128' if bits == 64 else 'uint64_t'
@@ -907,7 +913,8 @@ def translate(text, keep=None, want_info=False, guard_globals=()):
             body = '%s r; %s w = (%s)(%s)a %s (%s)(%s)b; r.f0 = (%s)w; r.f1 = (w != (%s)(%s)(%s)w) ? 1 : 0; return r;' % (lit, SW, SW, S, o, SW, S, T, SW, S, T)
         ovh.append('static inline %s __%s_ov_%d_%s(%s a, %s b){ %s }' % (lit, op, bits, lit.split()[-1], T, T, body))
     types = types + ovh
-    out = [PRELUDE] + types + protos + glines + (sw if 'vrt_run_on' in m.decls else [])
+    gdef = ['static void vrt_global_init_once(void) { if (vrt_ginit_done) return; vrt_ginit_done = 1; ' + ' '.join('%s();' % em.fname(c) for c in m.ctors if c in m.funcs) + ' }']
+    out = [PRELUDE] + types + ginit + protos + glines + gdef + (sw if 'vrt_run_on' in m.decls else [])
     for fb in fbodies: out.extend(fb)
     csrc = '\n'.join(out) + '\n'
     if not want_info: return csrc
